@@ -357,10 +357,21 @@ def run(ctx: Ctx) -> None:
         ctx.exhaustive = True
         if n[0] < 800:
             raise MachineryError(f"only {n[0]} situations emitted")
+        # ---- the same refusals as actions of the builder state machine: one inconsistent call at any position of any well-formed program
+        from . import builder_model
+        builder_model.run_refusals(ctx, wd)
     finally:
         cleanup(wd)
 
 
 def replay(path: str) -> int:
-    print(json.dumps(json.load(open(path)), indent=1)[:4000])
+    body = json.load(open(path))
+    if body.get("sig", {}).get("source") == "builder-model-refusal":
+        from . import builder_model
+        hist = body["case"]["hist"]
+        for ev in hist:
+            print(ev)
+        print("last call raised:", builder_model.replay_refusal(hist, [{"t": "Sum", "s": "Unit", "size": 2}, {"t": "Q"}]), "| expected:", body.get("expected"))
+        return 0
+    print(json.dumps(body, indent=1)[:4000])
     return 0
